@@ -1970,6 +1970,8 @@ def _handle_assignment_ast(
 
         if not isinstance(value, (ast.Tuple, ast.List)):
             return None
+        if len(value.elts) != len(left_names):
+            raise ValueError("tuple assignment needs as many values as targets")
 
         right_data = [eval_or_expr(elt) for elt in value.elts[: len(left_names)]]
         evaluated_values = [data[2] for data in right_data]
@@ -2269,7 +2271,10 @@ def _parse_simple_lines(
                 if isinstance(value, bool):
                     return 1.0 if value else 0.0
                 if isinstance(value, (int, float)):
-                    return float(value)
+                    try:
+                        return float(value)
+                    except OverflowError as exc:
+                        raise ValueError("numeric constant out of range") from exc
         return _to_c_expr(arg_src, vars, ctx)
 
     def _resolve_optional_numeric_arg(
@@ -3574,6 +3579,8 @@ def _parse_simple_lines(
                         if isinstance(entry, bool):
                             pattern_values.append(1 if entry else 0)
                         elif isinstance(entry, (int, float)):
+                            if entry != entry or entry in (float("inf"), float("-inf")):
+                                raise ValueError("flash_pattern values must be finite")
                             pattern_values.append(int(entry))
                         else:
                             raise ValueError("flash_pattern values must be numeric")
